@@ -78,6 +78,8 @@ structure CAlg (C : Type) where
   /-- number ∘ construct -/
   binNC : Op → Rat → Ess → C → Except UErr C
   neg : Ess → C → Except UErr C
+  /-- magnitude of `a ** b` as pint computes it on the nominal values (irrational in general) -/
+  powMag : Rat → Rat → Rat
 
 structure UNv (C : Type) where
   ess : Ess
@@ -91,9 +93,24 @@ inductive Opd (C : Type) where
   | cons          -- a bare construct (is_un = 2)
   | other         -- anything else (is_un returns None)
 
+/-- what `fromConstruct` + `pass_down_units` put into the new object: the class of the new
+construct, the construct, magnitude and dimension of the new pint quantity.  Nothing else. -/
 structure Res (C : Type) where
+  ess : Ess
   cons : C
+  nom : Rat
   dim : Dim
+
+/-- arithmetic of pint on the magnitudes, operands in the order given -/
+def magOp (pw : Rat → Rat → Rat) (op : Op) (a b : Rat) : Rat :=
+  match op with
+  | .add => a + b | .sub => a - b | .mul => a * b | .div => a / b | .pow => pw a b
+
+/-- class of `construct ∘ number`, `number ∘ construct`, `-construct`: an Interval stays an
+Interval, everything else comes back as a p-box -/
+def numEss : Ess → Ess
+  | .interval => .interval
+  | _ => .pbox
 
 variable {C : Type}
 
@@ -105,6 +122,19 @@ def passDownUnits (a : UNv C) (b : Opd C) (op : Op) (reflected : Bool) : Except 
     if reflected then qOp op bq a.dim a.nom else qOp op a.dim bq c
   | .un v => qOp op a.dim v.dim v.nom
   | _ => .error .unbound
+
+/-- magnitude computed by `pass_down_units` (same branches, same operand order) -/
+def passDownMag (pw : Rat → Rat → Rat) (a : UNv C) (b : Opd C) (op : Op) (reflected : Bool) : Rat :=
+  match b with
+  | .num c => if reflected then magOp pw op c a.nom else magOp pw op a.nom c
+  | .un v => magOp pw op a.nom v.nom
+  | _ => 0
+
+/-- class of the construct `bin_ops` hands to `fromConstruct` -/
+def binEss (self : UNv C) (oth : Opd C) : Ess :=
+  match oth with
+  | .num _ => numEss self.ess
+  | _ => .pbox
 
 /-- `UncertainNumber.bin_ops(self, other, ops, reflected)` -/
 def binOps (alg : CAlg C) (self : UNv C) (oth : Opd C) (op : Op) (reflected : Bool) :
@@ -120,13 +150,13 @@ def binOps (alg : CAlg C) (self : UNv C) (oth : Opd C) (op : Op) (reflected : Bo
     | .cons => .error .value
     | .other => .error .unbound
   let d ← passDownUnits self oth op reflected
-  pure ⟨newCons, d⟩
+  pure ⟨binEss self oth, newCons, passDownMag alg.powMag self oth op reflected, d⟩
 
 /-- `__rpow__` : number ** U goes through `convert` for every essence -/
 def rpow (alg : CAlg C) (self : UNv C) (c : Rat) : Except UErr (Res C) := do
   let newCons ← alg.binNC .pow c .pbox (alg.conv self.ess self.cons)
   let d ← passDownUnits self (.num c) .pow true
-  pure ⟨newCons, d⟩
+  pure ⟨.pbox, newCons, passDownMag alg.powMag self (.num c) .pow true, d⟩
 
 /-- the forward dunder methods `__add__ … __pow__` -/
 def dunder (alg : CAlg C) (op : Op) (self : UNv C) (oth : Opd C) : Except UErr (Res C) :=
@@ -154,7 +184,7 @@ def pyBin (alg : CAlg C) (op : Op) (l r : Opd C) : Option (Except UErr (Res C)) 
 /-- `__neg__` -/
 def pyNeg (alg : CAlg C) (u : UNv C) : Except UErr (Res C) := do
   let c ← alg.neg u.ess u.cons
-  pure ⟨c, u.dim⟩
+  pure ⟨numEss u.ess, c, -u.nom, u.dim⟩
 
 /-! ## the specified table -/
 
@@ -204,10 +234,55 @@ def expoOf : Opd C → Rat
   | .num c => c
   | _ => 0
 
+/-- magnitude of an operand as a pint quantity -/
+def magOf : Opd C → Rat
+  | .un u => u.nom
+  | .num c => c
+  | _ => 0
+
+/-- class of the result: an interval with a plain number stays an interval (except `c ** U`),
+everything else is a p-box -/
+def essSpec (op : Op) (l r : Opd C) : Ess :=
+  match l, r with
+  | .un u, .num _ => numEss u.ess
+  | .num _, .un u => if op = .pow then .pbox else numEss u.ess
+  | _, _ => .pbox
+
 def specBin (alg : CAlg C) (op : Op) (l r : Opd C) : Except UErr (Res C) := do
   let c ← consSpec alg op l r
   let d ← unitSpec op (dimOf l) (dimOf r) (expoOf r)
-  pure ⟨c, d⟩
+  pure ⟨essSpec op l r, c, magOp alg.powMag op (magOf l) (magOf r), d⟩
+
+/-! ## histories: a derived uncertain number carries the result's class, construct, magnitude
+and dimension and nothing else (`fromConstruct` builds a fresh object, `pass_down_units`
+overwrites its quantity) -/
+def derive (r : Res C) : UNv C := ⟨r.ess, r.cons, r.nom, r.dim⟩
+
+inductive Step (C : Type) where
+  | opR (op : Op) (r : Opd C)     -- acc op r
+  | opL (op : Op) (c : Rat)       -- c op acc
+  | self (op : Op)                -- acc op acc
+  | neg                           -- -acc
+
+/-- one more operator applied to the current uncertain number, as the class computes it -/
+def codeStep (alg : CAlg C) (u : UNv C) : Step C → Except UErr (Res C)
+  | .opR op r => dunder alg op u r
+  | .opL op c => rdunder alg op u c
+  | .self op => dunder alg op u (.un u)
+  | .neg => pyNeg alg u
+
+/-- … and as the statement specifies it -/
+def specStep (alg : CAlg C) (u : UNv C) : Step C → Except UErr (Res C)
+  | .opR op r => specBin alg op (.un u) r
+  | .opL op c => specBin alg op (.num c) (.un u)
+  | .self op => specBin alg op (.un u) (.un u)
+  | .neg => (alg.neg u.ess u.cons).map (fun c => ⟨numEss u.ess, c, -u.nom, u.dim⟩)
+
+def runHist (step : UNv C → Step C → Except UErr (Res C)) (u : UNv C) : List (Step C) → Except UErr (UNv C)
+  | [] => .ok u
+  | s :: rest => do
+    let r ← step u s
+    runHist step (derive r) rest
 
 /-! ## free term algebra: what the driver prints -/
 inductive Term where
@@ -225,6 +300,7 @@ def termAlg : CAlg Term where
   binCN := fun op _ x c => .ok (.cn op x c)
   binNC := fun op c _ x => .ok (.nc op c x)
   neg := fun _ x => .ok (.neg x)
+  powMag := fun _ _ => 0
 
 /-! ## specification of p-box ∘ number on quantile lists (left = lower quantiles,
 right = upper quantiles, both ascending in the probability level) -/
